@@ -19,6 +19,7 @@ package authenticode
 import (
 	"context"
 	"crypto"
+	"errors"
 
 	"github.com/sassoftware/relic/v8/lib/certloader"
 	"github.com/sassoftware/relic/v8/lib/comdoc"
@@ -33,6 +34,16 @@ func SignMSIImprint(ctx context.Context, digest []byte, hash crypto.Hash, cert *
 // Add a signature blob to an open MSI file. The extended signature blob is
 // added or updated if provided, or deleted if nil.
 func InsertMSISignature(cdf *comdoc.ComDoc, pkcs, exsig []byte) error {
+	// refuse before anything is changed if a storage sits where a signature stream has to go
+	files, err := cdf.ListDir(nil)
+	if err != nil {
+		return err
+	}
+	for _, item := range files {
+		if item.Type != comdoc.DirStream && isMsiSignatureName(item.Name()) {
+			return errors.New("can't delete or replace storages")
+		}
+	}
 	if len(exsig) > 0 {
 		if err := cdf.AddFile(msiDigitalSignatureEx, exsig); err != nil {
 			return err
